@@ -254,20 +254,25 @@ def run(ctx):
     # success runs with backup chains
     for prog in STAGES:
         outname = OUTNAME[prog]
-        for nb in range(0, 4):
+        for nb in (0, 1, 2, 3, 'gap'):
+            gap = nb == 'gap'
+            if gap:
+                nb = 1        # a backup chain with a hole: #name.2# exists, #name.1# was deleted; the first free name is #name.1#
             with systems.Workdir() as wd:
                 prepare(wd, rng)
                 if nb >= 1:
                     with open(os.path.join(wd, 'out', outname), 'w') as fh:
                         fh.write('OLD CONTENT')
-                for k in range(1, nb):
+                for k in ([2, 4] if gap else range(1, nb)):
                     with open(os.path.join(wd, 'out', f'#{outname}.{k}#'), 'w') as fh:
                         fh.write(f'BACKUP {k}')
                 before = listing(os.path.join(wd, 'out'))
                 exc = run_program(prog, wd, outname)
                 after = listing(os.path.join(wd, 'out'))
             ctx.feature(f'{prog}_success')
-            ctx.case((prog, 'success', nb), nontrivial=nb >= 1, sample={'program': prog, 'existing': sorted(before), 'after': sorted(after)})
+            if gap:
+                ctx.feature('success_with_a_hole_in_the_backup_chain')
+            ctx.case((prog, 'success', 'gap' if gap else nb), nontrivial=nb >= 1, sample={'program': prog, 'existing': sorted(before), 'after': sorted(after)})
             if exc is not None:
                 ctx.violation('spec', f"{prog} failed on a valid input: {exc}", {'program': prog, 'success_case': nb, 'exception': exc})
                 continue
